@@ -11,11 +11,21 @@
 EXTENDS Session, TLC, Json
 
 CONSTANTS Vars,     \* the names statements bind: a subset of Names
-          SDepth
+          SDepth,
+          Alphabet  \* "full": everything below; "fn": the statements about function values only, for deeper runs
 
 N1 == ENum(1)
 Plus(x, y) == EBin("add", x, y)
-Stmts ==
+\* function values observed through their names: a closure over a name bound before or after it (late-bound), aliases at
+\* top level and inside do-blocks (which must not alter the function the old name shows), a recursive function leaving a do-block
+FnStmts ==
+     {St(EAsg(n, ENum(k)), "") : n \in Vars, k \in {1}}
+  \cup {St(EAsg(n, ELam(<<Req("x")>>, Plus(EId(m), EId("x")))), "") : n \in Vars, m \in Vars}
+  \cup {St(EAsg(n, EId(m)), "") : n \in Vars, m \in Vars}
+  \cup {St(EDo(<<EAsg(m, EId(n))>>, ENum(0)), "") : n \in Vars, m \in Vars}                  \* alias inside a do-block
+  \cup {St(EAsg(n, EDo(<<EAsg(m, ELam(<<Req("x")>>, EIf(EBin("lt", EId("x"), N1), ENum(0), ECall(EId(m), <<EBin("sub", EId("x"), N1)>>))))>>, EId(m))), "") : n \in Vars, m \in Vars}
+  \cup {St(ECall(EId(n), <<ENum(2)>>), "") : n \in Vars}
+AllStmts ==
      {St(EAsg(n, ENum(k)), "") : n \in Vars, k \in {1, 2}}
   \cup {St(EAsg(n, EId(m)), "") : n \in Vars, m \in Vars}
   \cup {St(EAsg(n, Plus(EAsg(m, ENum(2)), N1)), "") : n \in Vars, m \in Vars}               \* n = (m = 2) + 1, incl. n = m
@@ -33,6 +43,8 @@ Stmts ==
   \cup {St(EAsg(n, ENum(k)), n) : n \in Vars, k \in {3}}                                     \* output n = 3
   \cup {St(EBin("via", EList(<<N1, ENum(2)>>), ELam(<<Req(n)>>, EId(n))), "") : n \in Vars}
   \cup {St(Plus(EId(n), N1), "") : n \in Vars}
+  \cup {St(EDo(<<EAsg(m, EId(n))>>, ENum(0)), "") : n \in Vars, m \in Vars}
+Stmts == IF Alphabet = "fn" THEN FnStmts ELSE AllStmts
 
 Init == SInit
 Next == \E st \in Stmts : Len(hist) < SDepth /\ Do(st)
